@@ -19,6 +19,12 @@ CLAIMED = {
  "C15": ("§7 C15", "The full product of calendar boundary dates x precisions x times x offsets (incl. those crossing UTC year 0/10000) x fraction digit counts and coefficients is pushed through the Go constructor, String, ParseTimestamp, both writers and readers and every reference binary encoding; plus a rejection catalogue in text and binary, sub-nanosecond rounding around every half-unit boundary, and ordered pairs of timestamps in one stream.",
          "Trusts refmodel's calendar arithmetic (no time.Time) and the reference codecs; dates outside the grid are not covered.",
          "explicit enumeration of a boundary grid on the implementation vs an independent calendar model"),
+ "C16": ("§7 C16", "Every entry of a 36-type table (all supported kinds, tag options, embedding shapes, nil vs empty collections, Ion-specific types) x every boundary value x 8 wrappers x 4 marshal/unmarshal entry points: the bytes are decoded by the independent decoder and compared with an independently computed Ion image of the Go value, then unmarshalled into a fresh value of the same type and compared, and MarshalText is run twice.",
+         "Trusts the image function (an independent walk over values and tags) and refmodel; types outside the table and deeper wrapper nesting are not covered.",
+         "explicit enumeration of a type x value x wrapper x API product on the implementation vs an independent mapping model"),
+ "C17": ("§7 C17", "The full matrix of 86 Ion values x 38 Go target types x 4 unmarshal entry points, judged by the documented mapping table (must succeed and image back / must return an error / not judged), hand-written struct-target cells, and Decoder streams of 0..3 values followed by two extra calls (ErrNoInput); a panic anywhere is a violation.",
+         "The godoc mapping table is the specification; conversions it does not mention are exercised for panics only.",
+         "explicit enumeration of the value x target x API matrix on the implementation vs a table-driven reference"),
  "C05": ("§7 C05", "Source documents produced by the reference printer/encoder (the whole value generator, plus every history of <=4 symbol-table events under five catalogs) in text and binary are copied by the documented copy loop into text, pretty and binary Writers; the independent decoder must read back the values the reference context machine assigns to the source, symbols compared by text.",
          "Trusts refsym/refbin/reftext; longer histories are not covered; symbols whose text the source does not know are judged on histories of <=3 events (known findings).",
          "explicit enumeration of source histories x destinations, replayed through the real Reader and Writer, judged by an independent decoder"),
